@@ -131,9 +131,18 @@ class Deduping(DNAGenerator):
     self.generator.feedback(dna, reward)
     self._add_dna_to_cache(dna, reward)
 
+  def recover(self, history) -> None:
+    """Recovers the inner generator through its own `recover`, then the cache."""
+    history = list(history)
+    self.generator.recover(history)
+    super().recover(history)
+
   def _replay(self, trial_id: int, dna: DNA, reward: Any) -> None:
-    self.generator._replay(trial_id, dna, reward)  # pylint: disable=protected-access
-    self._add_dna_to_cache(dna, reward)
+    del trial_id
+    # NOTE: as in `_propose`/`_feedback`, a DNA enters the cache when it is
+    # proposed (generators without feedback) or when its reward arrives.
+    if reward is not None or not self.needs_feedback:
+      self._add_dna_to_cache(dna, reward)
 
   def _add_dna_to_cache(
       self, dna: DNA, reward: Union[None, float, Tuple[float]]) -> None:
